@@ -37,7 +37,10 @@ def cc_expected(ckm2, nf, projectile, pv, hq=0):
 def search_lo(chk, r, n):
     """real LO runs at grid nodes: operator row must be x * weight * Kronecker delta"""
     grid = cards.default_grid(10)
-    for i in range(n):
+    # a structured block first: polarised charged-lepton NC at low and high virtuality, every kind
+    # with a LO term (random sampling alone reaches this corner in ~1 of 8 cases)
+    structured = [("NC", proj, kind, Q2, pol) for proj in ("electron", "positron") for kind in ("F2", "F3", "g1", "g4") for Q2 in (50.0, 30000.0) for pol in (0.7, -0.5)]
+    for i in range(n + len(structured)):
         process = r.choice(["EM", "NC", "NC", "CC"])
         th_kw, ob_kw = cards.rand_ew(r)
         if process == "CC":
@@ -47,6 +50,9 @@ def search_lo(chk, r, n):
         kinds = cards.UNPOL if process == "CC" else cards.SFS
         kind = r.choice(kinds)
         Q2 = float(r.choice([5.0, 50.0, 3000.0, 30000.0]))
+        if i < len(structured):
+            process, proj, kind, Q2, pol = structured[i]
+            ob_kw = dict(ob_kw, PolarizationDIS=pol)
         k = r.randrange(2, len(grid) - 1)
         x = grid[k]
         t = cards.theory(PTO=0, FNS="ZM-VFNS", **th_kw)
